@@ -41,7 +41,7 @@ def validate_file(trace, timeout=3000):
                        cwd_files={"trace.ndjson": trace}, java_opts=["-Xmx3g"])
     if vlib.tlc_failed(res) or "VIOLATIONS" not in res.prints:
         raise vlib.MachineryError("trace validation of %s did not complete:\n%s" % (trace, res.output[-3000:]))
-    return res.print_json("VIOLATIONS")
+    return res.print_json("VIOLATIONS"), set(res.print_json("WITNESSES"))
 
 
 def trace_index(trace):
@@ -96,12 +96,14 @@ def collect(v, prop, traces, scen_dirs, label_of=None):
     with concurrent.futures.ThreadPoolExecutor(max_workers=min(8, max(1, 2 * len(traces)))) as ex:
         futs = {ex.submit(validate_file, t): t for t in traces}
         cfuts = {ex.submit(conform_file, t): t for t in traces}
+        witnesses = set()
         for f in concurrent.futures.as_completed(futs):
-            results[futs[f]] = f.result()
+            results[futs[f]], w = f.result()
+            witnesses |= w
         for f in concurrent.futures.as_completed(cfuts):
             conf[cfuts[f]] = f.result()
     stats = {"traces": 0, "events": 0, "nontrivial": 0, "kinds": set(), "others": {}, "unexpected": [],
-             "model_steps": 0, "model_adopted": 0}
+             "model_steps": 0, "model_adopted": 0, "witnesses": witnesses}
     for t in traces:
         ds, counts = conf[t]
         stats["model_steps"] += counts["steps"]
